@@ -69,6 +69,10 @@ def main(ctx, replay=None):
         vmax = float(rng.uniform(300, 900))
         volumes = numpy.linspace(vmax, 0.75 * vmax, nv)
         v_array = grid(volumes)
+        int_grid = bool(ci % 5 == 2)
+        if int_grid:
+            # a grid of whole-number volumes handed over as an integer array (numpy.arange and friends): the same grid
+            v_array = numpy.rint(v_array).astype(numpy.int64)
         x = numpy.log(v_array / vmax)
         # ---- (1) power laws, distinct exponents -------------------------------------------------------
         g = numpy.linspace(0.6, 2.4, nq * np_).reshape(nq, np_) + rng.uniform(-0.02, 0.02, (nq, np_))
@@ -77,7 +81,8 @@ def main(ctx, replay=None):
         gamma_zero = bool(rng.random() < 0.5)
         if gamma_zero:
             freqs[:, 0, :3] = 0.0        # as in real files; otherwise arbitrary positive numbers: the output must be zero either way
-        case = {"method": method, "order": order, "nv": nv, "table": "power_law", "gamma_acoustic_zero": gamma_zero, "nq": nq, "np": np_, "pass": ci // max(1, len(calls))}
+        case = {"method": method, "order": order, "nv": nv, "table": "power_law", "gamma_acoustic_zero": gamma_zero, "nq": nq, "np": np_, "pass": ci // max(1, len(calls)),
+                "integer_typed_grid": int_grid}
         ctx.count(case)
         try:
             w, gam, kap = call(method, order, volumes, freqs, v_array)
@@ -177,6 +182,28 @@ def main(ctx, replay=None):
         if dev > 0.05 * rng_g + 1e-4:
             ctx.violation(f"{method} order {order} nv {nv}: the third quantity is not dgamma/dlnV of the returned gamma (integral dev {dev:.3g})",
                           case3, {**sig, "clause": "vdgdv_consistent"})
+        # ---- (3b) the same table on a small grid strictly inside ONE piece of the interpolant (between two neighbouring tabulated volumes
+        # there is no node of any method): there gamma is a polynomial in ln V, and the third quantity is its derivative at EVERY grid
+        # point, the first and the last included
+        k = nv // 2 - 1
+        xa, xb = numpy.log(volumes[k]), numpy.log(volumes[k + 1])
+        xin = numpy.linspace(xa + 0.06 * (xb - xa), xa + 0.94 * (xb - xa), 9)
+        case3b = {**case, "table": "generic_inside_one_piece"}
+        ctx.count(case3b)
+        try:
+            w, gam, kap = call(method, order, volumes, freqs, numpy.exp(xin))
+        except Exception as ex:
+            ctx.violation(f"{method} order {order} nv {nv} on a generic table (grid inside one piece) raised {ex!r}", case3b, {**sig, "clause": "raises", "exc": type(ex).__name__})
+            continue
+        gv, kv = numpy.asarray(gam[:, -1, -1], dtype=float), numpy.asarray(kap[:, -1, -1], dtype=float)
+        if numpy.all(numpy.isfinite(gv)) and numpy.all(numpy.isfinite(kv)):
+            fit = numpy.polynomial.Polynomial.fit(xin, gv, deg=6)
+            dfit = fit.deriv()(xin)
+            tol3 = 1e-5 * max(1.0, float(numpy.max(numpy.abs(kv))), float(numpy.max(numpy.abs(dfit))))
+            if not numpy.max(numpy.abs(dfit - kv)) <= tol3:
+                i = int(numpy.argmax(numpy.abs(dfit - kv)))
+                ctx.violation(f"{method} order {order} nv {nv}: inside one piece of the interpolant the third quantity at grid point {i} of 9 is {kv[i]!r}, the "
+                              f"derivative of the returned gamma there is {dfit[i]!r}", case3b, {**sig, "clause": "vdgdv_consistent"})
     ctx.sample({"call": {k: calls[10][k] for k in ("method", "order", "nv", "nodes", "exact")}})
     plot_table(ctx, tab["plot"], rng)
 
